@@ -160,13 +160,59 @@ def r3_r4_guard_and_target(ctx, rep, R3='C15.R3', R4='C15.R4'):
     loops = [p for p in _parents(u, fi.node) if isinstance(p, ast.For)]
     fl = loops[0] if loops else None
     wl = loops[1] if len(loops) > 1 else None
-    okshape = fl is not None and wl is not None and isinstance(fl.target, ast.Name) and \
+    okshape = fl is not None and wl is not None and \
         isinstance(wl.target, ast.Tuple) and len(wl.target.elts) == 3
     if not okshape:
-        rep.undecide(R3, 'loops', 'unlink is not inside "for file in files" inside a walk loop')
+        rep.undecide(R3, 'loops', 'unlink is not inside a loop over file names inside a walk loop')
+        return
+    dname, dirs, files = [e.id if isinstance(e, ast.Name) else None for e in wl.target.elts]
+    # what the inner loop iterates must contain every name of the listing that passes the
+    # suffix test: the listing itself, an order-preserving filter of it, or a mapping keyed by
+    # the file name itself.  A mapping keyed by something derived from the name (e.g. the
+    # would-be source name) merges foo.pyc and foo.pyo: one orphan would survive.
+    src = fl.iter
+    lossy = None
+    if isinstance(src, ast.Call) and isinstance(src.func, ast.Attribute) and \
+            src.func.attr in ('items', 'values', 'keys') and isinstance(src.func.value, ast.Name):
+        defs = [n for n in ast.walk(wl) if isinstance(n, ast.Assign) and
+                is_name(n.targets[0], src.func.value.id)]
+        if len(defs) == 1 and isinstance(defs[0].value, ast.DictComp) and \
+                is_name(defs[0].value.generators[0].iter, files):
+            dc = defs[0].value
+            tv = dc.generators[0].target
+            key_is_file = isinstance(tv, ast.Name) and is_name(dc.key, tv.id)
+            if not key_is_file:
+                lossy = 'a dict keyed by %s (not by the file name itself)' % norm(dc.key)
+            else:
+                rep.undecide(R3, 'loops', 'dict-based iteration of the listing is not modelled')
+                return
+        else:
+            rep.undecide(R3, 'loops', 'the inner loop iterates %s' % norm(src))
+            return
+    elif isinstance(src, ast.Call) and dotted(src.func) in ('set', 'frozenset') and \
+            src.args and is_name(src.args[0], files):
+        pass        # same elements, order irrelevant for deletion
+    elif not is_name(src, files):
+        d2 = [n for n in ast.walk(wl) if isinstance(n, ast.Assign) and isinstance(src, ast.Name) and
+              is_name(n.targets[0], src.id)]
+        if len(d2) == 1 and isinstance(d2[0].value, (ast.ListComp, ast.GeneratorExp)) and \
+                is_name(d2[0].value.generators[0].iter, files) and \
+                isinstance(d2[0].value.generators[0].target, ast.Name) and \
+                is_name(d2[0].value.elt, d2[0].value.generators[0].target.id):
+            rep.undecide(R3, 'loops', 'pre-filtered listing is not modelled')
+            return
+        rep.undecide(R3, 'loops', 'the inner loop iterates %s' % norm(src))
+        return
+    if lossy:
+        rep.bad(R3, 'unlink loop iterates ' + lossy, 'the clean-up loop iterates %s built from the '
+                'listing: two bytecode files of the same module (x.pyc and x.pyo) collapse into one '
+                'entry and one orphan survives' % lossy, key='guard:lossy-iteration', func=FN,
+                where=ctx.where(fi, fl))
+        return
+    if not isinstance(fl.target, ast.Name):
+        rep.undecide(R3, 'loops', 'loop target is not a plain name')
         return
     fvar = fl.target.id
-    dname, dirs, files = [e.id if isinstance(e, ast.Name) else None for e in wl.target.elts]
     consts = m.module('find').constants
     from .common import guard_literals
     lits = [(e, pos) for e, pos in guard_literals(ctx, fi, u)
